@@ -47,7 +47,14 @@ ParseProps(e) ==
                /\ (jd.j = "rej" => ("ok" \in DOMAIN out /\ ~out.ok))),
       C04 |-> (okv => Valid(out.v)),
       C03 |-> (okv => (out.str = Render(out.v) /\ PrintableAscii(out.str) /\ QSorted(out.v.quals))),
-      C07 |-> (okv => (NoBadSeg(out.v.ns, FALSE) /\ NoBadSeg(out.v.sub, TRUE)))]
+      C07 |-> /\ (okv => (NoBadSeg(out.v.ns, FALSE) /\ NoBadSeg(out.v.sub, TRUE)))
+              /\ ((okv /\ jd.j = "acc") => (out.v.ns = jd.v.ns /\ out.v.sub = jd.v.sub)),
+      \* the typed PURL: the type's own rules (name rule, maven namespace, unknown type) and the type lookup
+      C08 |-> (e.sh = "typed" =>
+                 /\ (jd.j = "acc" => (okv /\ out.v = jd.v))
+                 /\ ((jd.j = "err" /\ jd.err \in {"UnsupportedType", "MissingNamespace"})
+                       => ("ok" \in DOMAIN out /\ ~out.ok /\ out.err = jd.err))),
+      C15 |-> ((e.sh = "typed" /\ jd.j = "err" /\ jd.err \in {"UnsupportedType", "Parse:InvalidPackageType"}) => ~okv)]
 \* fold the recorded ops over the builder and the history
 RECURSIVE RunOps(_, _, _, _)
 RunOps(b, last, ops, tab) ==
